@@ -213,6 +213,36 @@ func genSnapCase(r *fw.Rand) fw.Case {
 	return fw.Case{Ops: ops, Tags: []string{"snapshot"}}
 }
 
+// genSortCase: block lists as a key's blocks arrive from several files (each file's blocks in
+// time order and disjoint, files possibly overlapping each other), in file order — the input
+// of blocks.sortStable and sortLocations; up to 60 blocks so that the ranges where the library
+// sorts change algorithm (12, 20) are crossed.
+func genSortCase(r *fw.Rand) fw.Case {
+	ops := []string{"reset 4"}
+	for k := 0; k < 12; k++ {
+		nfiles := 1 + r.Intn(6)
+		seen := map[string]bool{}
+		var items []string
+		for f := 0; f < nfiles; f++ {
+			nb := 1 + r.Intn(12)
+			t := int64(r.Intn(40))
+			for b := 0; b < nb; b++ {
+				lo := t + int64(r.Intn(6))
+				hi := lo + int64(r.Intn(12))
+				t = hi + 1 + int64(r.Intn(4))
+				it := fmt.Sprintf("%d:%d:%d", lo, hi, f)
+				if !seen[it] {
+					seen[it] = true
+					items = append(items, it)
+				}
+			}
+		}
+		kind := []string{"c", "asc", "desc"}[r.Intn(3)]
+		ops = append(ops, "bsort "+kind+" "+strings.Join(items, ","))
+	}
+	return fw.Case{Ops: ops, Tags: []string{"blockorder"}}
+}
+
 func (Prop) Generate(r *fw.Rand, tier string) []fw.Case {
 	n, nbig, nsnap := 300, 30, 4
 	if tier == "thorough" {
@@ -225,6 +255,9 @@ func (Prop) Generate(r *fw.Rand, tier string) []fw.Case {
 	var cases []fw.Case
 	for i := 0; i < nbig; i++ {
 		cases = append(cases, genCase(r.Fork(), true))
+	}
+	for i := 0; i < nbig; i++ {
+		cases = append(cases, genSortCase(r.Fork()))
 	}
 	for i := 0; i < n; i++ {
 		cases = append(cases, genCase(r.Fork(), false))
@@ -462,6 +495,12 @@ func (Prop) Oracle(c fw.Case, out []string) fw.Verdict {
 		case strings.HasPrefix(o, "err"):
 			return fw.Verdict{OK: false, Why: fmt.Sprintf("%.200s => %.300s", op, o), Signature: "error in " + f[0]}
 		}
+		if f[0] == "bsort" {
+			if why := checkOrder(f, o); why != "" {
+				return fw.Verdict{OK: false, Why: fmt.Sprintf("%.300s => %.300s: %s", op, o, why), Signature: "block order: " + sigWords(why)}
+			}
+			continue
+		}
 		want := rf.step(f)
 		if o != want {
 			what := "content of the compaction output differs from newest-wins minus tombstones"
@@ -492,7 +531,7 @@ func sigWords(s string) string {
 
 func (Prop) Trivial(c fw.Case, out []string) bool {
 	for _, op := range c.Ops {
-		if strings.HasPrefix(op, "compact") || strings.HasPrefix(op, "snap") {
+		if strings.HasPrefix(op, "compact") || strings.HasPrefix(op, "snap") || strings.HasPrefix(op, "bsort") {
 			return false
 		}
 	}
@@ -501,4 +540,54 @@ func (Prop) Trivial(c fw.Case, out []string) bool {
 
 func (Prop) Describe(cfg *fw.Config) {
 	cfg.Rule = "seeded TSM file sets written block by block (1-3 keys of all five value types; 2-8 files over increasing generations and sequences; per key 1-14 blocks of 1..size points with full blocks biased, time windows overlapping, interleaved or disjoint between files; points-per-block 1,2,3,4,5,8,1000), tombstone ranges on any file (single instant, partial, everything), cache snapshots from unordered duplicate-laden writes (also >1000 points per key), then full or fast compactions of contiguous file ranges in up to three rounds with more files and tombstones in between, and a final compaction raced with DisableCompactions; outputs read back block by block through TSMReader; non-trivial = at least one compaction or snapshot ran; distinct = distinct op list"
+}
+
+// checkOrder: what the merge needs from the order of a key's blocks — it is a rearrangement of
+// the input; two blocks that overlap in time keep the order they arrived in (= the order of
+// their files); and (compaction) no block is wholly before the block in front of it.
+func checkOrder(f []string, o string) string {
+	type blk struct{ lo, hi int64 }
+	var bs []blk
+	for _, it := range strings.Split(f[2], ",") {
+		p := strings.Split(it, ":")
+		lo, _ := strconv.ParseInt(p[0], 10, 64)
+		hi, _ := strconv.ParseInt(p[1], 10, 64)
+		bs = append(bs, blk{lo, hi})
+	}
+	if !strings.HasPrefix(o, "order ") {
+		return "no order returned"
+	}
+	var order []int
+	seen := map[int]bool{}
+	for _, x := range strings.Split(strings.TrimPrefix(o, "order "), ",") {
+		i, err := strconv.Atoi(x)
+		if err != nil || i < 0 || i >= len(bs) || seen[i] {
+			return "not a rearrangement of the input"
+		}
+		seen[i] = true
+		order = append(order, i)
+	}
+	if len(order) != len(bs) {
+		return "not a rearrangement of the input"
+	}
+	posOf := make([]int, len(bs))
+	for p, i := range order {
+		posOf[i] = p
+	}
+	for i := range bs {
+		for j := i + 1; j < len(bs); j++ {
+			if bs[i].lo <= bs[j].hi && bs[j].lo <= bs[i].hi && posOf[i] > posOf[j] {
+				return fmt.Sprintf("overlapping blocks %d [%d,%d] and %d [%d,%d] swapped: the older file's values would win", i, bs[i].lo, bs[i].hi, j, bs[j].lo, bs[j].hi)
+			}
+		}
+	}
+	if f[1] == "c" {
+		for p := 1; p < len(order); p++ {
+			a, b := bs[order[p-1]], bs[order[p]]
+			if b.lo < a.lo && b.hi < a.lo {
+				return "a block wholly before its predecessor"
+			}
+		}
+	}
+	return ""
 }
